@@ -14,7 +14,7 @@ from fractions import Fraction
 import numpy as np
 from common import *
 
-IMPORTS = ("From CV Require Import Base.LinAlg Base.Cmp Base.QcLin Model.C03_GradQ Model.C03_GradR. "
+IMPORTS = ("From CV Require Import Base.LinAlg Base.Cmp Base.QcLin Model.C03_GradQ Model.C03_GradR Model.C03_Support Model.C03_ChainR. "
            "From Coq Require Import Reals QArith Qcanon List. From Interval Require Import Tactic. Import ListNotations.")
 
 RULE = ("cells = family x parameter form x configuration (see `cells`); every value case holds a non-zero mean/location, "
@@ -521,6 +521,19 @@ def make_geometry(spec, n):
             g = _MG(Continuous1D(n), map=lambda x: ga * x * x + gb * x + gc)
         if k not in ("mapped", "mapped+imap") and _MG is MappedGeometry:
             g.gradient = lambda direction, wrt: direction * (2 * ga * wrt + gb)
+        return g
+    if k == "tmap+grad":
+        # a TRANSCENDENTAL elementwise map with its own derivative: exp (positivity parameterisation) or sin (derivative changes sign);
+        # declared on the instance (style 0) or by a subclass that defines the method (style 1)
+        fun, dfun = {"exp": (np.exp, np.exp), "sin": (np.sin, np.cos)}[spec[1]]
+
+        class _TGsub(MappedGeometry):
+            def gradient(self, direction, wrt):
+                return direction * dfun(wrt)
+        if spec[2]:
+            return _TGsub(Continuous1D(n), map=fun)
+        g = MappedGeometry(Continuous1D(n), map=fun)
+        g.gradient = lambda direction, wrt: direction * dfun(wrt)
         return g
     if k == "step":
         return StepExpansion(np.linspace(0, 1, n * 2), n_steps=n)
@@ -1073,6 +1086,7 @@ def run(ctx):
     cases += gen_shallow(ctx, st)
     cases += gen_intparams(ctx, st)
     cases += gen_zeros(ctx, st)
+    cases += gen_lik_tgeo(ctx, st)          # new families go last: the random streams of the older generators stay as they were
     return Result(cases=cases, rule=RULE,
                   extra={"repair_state": {s: ("repaired" if v else "defect present") for s, v in st.items()}},
                   assumptions=[
@@ -1122,6 +1136,11 @@ def case_gauss_prior(meta, st, pcoq=None, P=None):
     expr = "check_gauss_prior %s %s %s %s %s %s %s && check_quad_logd_diff %s %s %s %s %s" % (
         cbool(st[SIG29]), FORM_COQ[form], pcoq, cqm(P), cqv(mean_list(meta["mean"])), cqv(uv(meta["x"])), cobs(o),
         cqm(P), cqv(mean_list(meta["mean"])), cqv(uv(meta["x"])), cqv(uv(meta["x1"])), cq(dobs))
+    if form == "sqrtprec" and st[SIG29] and o[0] == "vec":
+        # the sqrtprec parameterisation once more, as the code computes it (Gaussian._apply_prec: sqrtprec.T @ (sqrtprec @ dev),
+        # logpdf through |sqrtprec (x - mean)|^2): no implied-precision certificate, no symmetry test (Proofs/C03_Gram.v)
+        expr += " && check_gauss_sqrtprec %s %s %s %s %s %s" % (
+            pcoq, cqv(mean_list(meta["mean"])), cqv(uv(meta["x"])), cqv(uv(meta["x1"])), cqvec(o[1]), cq(dobs))
     d, sig = verdict_case(meta, o, obj, x, dim)
     return Case(expr=expr, meta=meta, cell=meta["cellname"], trivial=(n == 1), kind="EXACT", impl_fail=d, signature=sig)
 
@@ -1355,6 +1374,59 @@ def gen_lik(ctx, st):
     ms = rand_model(rng, "nograd", ("default",))
     out.append(case_lik(lik_meta(rng, ms, "cov", "scalar"), st, expect_refusal=True))
     return out
+
+
+TAC_TGEO = ("cbv [tlik_grad tlik_logk tfwd tjact rvmulM tphi tphi' map length rl_close r_close rdot rvadd rvsub rvscale rmatvec rmattvec "
+            "matvec mattvec dot vadd vsub vscale vzero repeat]; repeat split; interval with (i_prec 90).")
+
+
+def gen_lik_tgeo(ctx, st):
+    """likelihoods through every kind of forward model and a transcendental elementwise geometry with its own derivative
+    (Model/C03_ChainR.v, theorem C03_transcendental_geometry_likelihood): Gaussian and Lognormal data distributions"""
+    rng = ctx.rng
+    out = []
+    forms = [("cov", "matrix"), ("prec", "vector"), ("sqrtprec", "matrix"), ("cov", "scalar"), ("sqrtcov", "matrix"), ("prec", "matrix")]
+    k = 0
+    for kind in MODEL_KINDS:
+        for tm in ("exp", "sin"):
+            for rep in range(ctx.n(1, 4)):
+                k += 1
+                form, ptype = forms[k % len(forms)]
+                ms = rand_model(rng, kind, ["tmap+grad", tm, k % 2])
+                lognormal = (k % 4 == 0)
+                if lognormal:
+                    form, ptype = "cov", ("matrix" if k % 8 else "scalar")       # Lognormal is parameterised by a covariance only
+                meta = lik_meta(rng, ms, form, ptype, lognormal=lognormal)
+                meta["cellname"] = "lik-tgeo/%s/%s/%s" % ("lognormal" if lognormal else "gaussian", kind, tm)
+                # moderate points: exp(theta) stays O(1)
+                meta["x"], meta["x1"] = pv(rvec(rng, ms["n"], -1, 1)), pv(rvec(rng, ms["n"], -1, 1))
+                meta["lstyle"] = ["to_likelihood", "call-name"][k % 2]
+                meta["model"]["ret"] = ["fresh", "buffer", "fortran"][k % 3]
+                out += case_lik_tgeo(meta, st)
+    return out
+
+
+def case_lik_tgeo(meta, st):
+    ms = meta["model"]
+    obj, dim = build(meta)
+    th, th1 = fa(meta["x"]), fa(meta["x1"])
+    o = observe(lambda: obj.gradient(th))
+    f = logd_of(obj)
+    dobs = f(th1) - f(th)
+    _, P = coq_gparam({"form": meta["form"], "ptype": meta["ptype"], "n": ms["m"], "param": meta["param"]})
+    data = uv(meta["data"])
+    if meta.get("lognormal"):
+        data = fr(np.log(fa(meta["data"])))          # certificate: the floats numpy computed
+    tm = {"exp": "TExp", "sin": "TSin"}[ms["dom"][1]]
+    args = "%s %s %s %s %s" % (tm, crm([[F(a) for a in r] for r in ms["A"]]), crm([[F(a) for a in r] for r in ms["B"]]), crm(P), crv(data))
+    d, sig = verdict_case(meta, o, obj, th, dim, kw="x")
+    expr = "(rl_close %s (tlik_grad %s %s) %s)%%R" % (RTOL, args, crv(uv(meta["x"])), crv(o[1])) if o[0] == "vec" else "False"
+    cases = [Case(expr=expr, meta=meta, cell=meta["cellname"], kind="ENCLOSURE", tac=TAC_TGEO, impl_fail=d, signature=sig)]
+    m2 = dict(meta)
+    m2["what"] = "logd-difference"
+    expr2 = "(r_close %s (tlik_logk %s %s - tlik_logk %s %s) %s)%%R" % (RTOL, args, crv(uv(meta["x1"])), args, crv(uv(meta["x"])), cr(dobs))
+    cases.append(Case(expr=expr2, meta=m2, cell=meta["cellname"] + "/logd", kind="ENCLOSURE", tac=TAC_TGEO))
+    return cases
 
 
 def lik_meta(rng, ms, form, ptype, lognormal=False):
@@ -1625,7 +1697,7 @@ def gen_sum_factors(ctx, st):
 def case_sum(meta, st):
     if "post_hist" not in meta and not meta.get("_checked"):
         rs = random.Random(len(json.dumps(meta["parts"], default=str)))
-        for _ in range(30):
+        for attempt in range(30):
             comps0 = build_sum(meta)[1]
             vals = []
             for c in comps0:
@@ -1637,7 +1709,12 @@ def case_sum(meta, st):
                     pass
             if all(math.isfinite(v) and abs(v) < 500 for v in vals):
                 break
-            meta["x"], meta["x1"] = pv(rvec(rs, meta["n"], -1, 1)), pv(rvec(rs, meta["n"], -1, 1))
+            if attempt < 10:
+                meta["x"], meta["x1"] = pv(rvec(rs, meta["n"], -1, 1)), pv(rvec(rs, meta["n"], -1, 1))
+            else:
+                # a factor with a one-sided / bounded support (Lognormal, Beta, ...): points inside (0, 1), common to all of them
+                meta["x"], meta["x1"] = (pv([Fraction(rs.randint(1, 7), 8) for _ in range(meta["n"])]),
+                                         pv([Fraction(rs.randint(1, 7), 8) for _ in range(meta["n"])]))
         meta["_checked"] = True
     obj, comps = build_sum(meta)
     dim = meta["n"]
@@ -1922,6 +1999,13 @@ def gen_oos(ctx, st):
     return out
 
 
+def support_expr(meta, o):
+    """Model/C03_Support.v: the tests of the family's gradient method on the CONSTRUCTOR's parameters (raw: length 1 or n)
+    and the point decide between a finite vector and NaN; compared with what gradient() handed back"""
+    A, B, C = [[F(s[1])] if s[0] == "s" else uv(s[1]) for s in meta["pars"]]
+    return "check_support %s %s %s %s %s %s" % (meta["sfam"], cqvec(A), cqvec(B), cqvec(C), cqvec(uv(meta["x"])), cobs(o))
+
+
 def case_oos(meta, st):
     obj, dim = build(meta)
     x = fa(meta["x"])
@@ -1932,7 +2016,7 @@ def case_oos(meta, st):
         v = logd_of(obj)(x)
         if not (o[0] == "vec" and math.isfinite(v) and not np.any(o[1])):
             d = "Uniform at a boundary point %s: logd = %r, gradient -> %r" % (x.tolist(), v, o)
-        return Case(expr="match %s with ObsVec _ => true | _ => false end" % cobs(o), meta=meta, cell=meta["cellname"], kind="DECISION",
+        return Case(expr=support_expr(meta, o), meta=meta, cell=meta["cellname"], kind="DECISION",
                     impl_fail=d, signature=("C03|%s|%s" % (meta["cellname"], o[0])) if d else "")
     fsig = OOS_FINDING.get((meta["sfam"], meta["oos"]))
     if fsig and not st[fsig] and o[0] == "vec":
@@ -1949,7 +2033,7 @@ def case_oos(meta, st):
         v = logd_of(obj)(x)
         if math.isfinite(v):
             d = "%s: gradient is NaN at %s where logd = %r is finite" % (meta["sfam"], x.tolist(), v)
-    expr = "match %s with ObsNaN => true | _ => false end" % cobs(o)
+    expr = support_expr(meta, o)        # the model decides from (family, parameters, point) that the answer is NaN
     return Case(expr=expr, meta=meta, cell=meta["cellname"], kind="DECISION", impl_fail=d,
                 signature=("C03|%s|%s" % (meta["cellname"], o[0])) if d else "")
 
@@ -2006,6 +2090,11 @@ def case_sep(meta, st):
     m2["what"] = "logd-difference"
     expr2 = "(r_close %s (fam_logk %s %s - fam_logk %s %s) %s)%%R" % (RTOL, args, crv(uv(meta["x1"])), args, crv(uv(meta["x"])), cr(dobs))
     cases.append(Case(expr=expr2, meta=m2, cell=meta["cellname"] + "/logd", kind="ENCLOSURE", tac=TAC, trivial=triv))
+    if dim > 1 and o[0] in ("vec", "nan"):
+        # the guard model on a point INSIDE the support: the tests must let the formula through (finite vector, one entry per coordinate)
+        m3 = dict(meta)
+        m3["what"] = "support-guard"
+        cases.append(Case(expr=support_expr(meta, o), meta=m3, cell=meta["cellname"] + "/guard", kind="DECISION", trivial=True))
     return cases
 
 
@@ -2827,6 +2916,8 @@ def _rerun(meta):
         return [case_gauss_prior(meta, st)]
     if fam == "gmrf":
         return [case_gmrf(meta, st)]
+    if fam == "lik" and meta["model"]["dom"][0] == "tmap+grad":
+        return case_lik_tgeo(meta, st)
     if fam == "lik":
         return [case_lik(meta, st)]
     if fam in ("post", "mlp"):
